@@ -57,6 +57,7 @@ class ConScenario(Scenario):
         #   class: the tuning is handed over as a TransportTuning subclass, not an instance (as aiocoap-client does)
         #   queued: the CON under test had to wait behind two earlier requests to the same endpoint, each answered in turn
         #   default-after-edit: the CON has no tuning of its own (defaults 2 / 1.5 / 4), and another message's default tuning was edited before
+        #   mtype-arg: the message is created with the deprecated mtype=CON keyword next to its tuning
         #   follower-withdrawn: a second request to the same endpoint was held back behind the CON under test and then withdrawn
         self.params = {"source": source, "ACK_TIMEOUT": at, "ACK_RANDOM_FACTOR": arf, "MAX_RETRANSMIT": mr, "uniform": uni, "pre": pre}
         self.name = "S-CON-%s-%s-%s-%s-%s-%s" % (source, at, arf, mr, uni, pre)
@@ -117,7 +118,15 @@ class ConScenario(Scenario):
                 other.transport_tuning.ACK_RANDOM_FACTOR = 1.0
                 other.transport_tuning.MAX_RETRANSMIT = 1
                 tt = None
-            m = Message(code=GET, uri_path=["x"], transport_tuning=tt)
+            if pre == "mtype-arg":
+                # the sender states the type the old way (deprecated keyword) next to its tuning: the tuning still is the one it gave
+                import warnings
+                from aiocoap import CON as _CON
+                with warnings.catch_warnings():
+                    warnings.simplefilter("ignore")
+                    m = Message(code=GET, uri_path=["x"], transport_tuning=tt, mtype=_CON)
+            else:
+                m = Message(code=GET, uri_path=["x"], transport_tuning=tt)
             m.remote = st.node.remote(SERVER)
             if p["source"] == "block2":
                 # the CON under test is the follow-up request for block 1 that the library generates itself
@@ -186,6 +195,13 @@ class ConScenario(Scenario):
                 st.obs.updated_state()
                 w.loop.settle()
         cons = [d for d in w.sent if d.src == st.node.addr and d.data[0] & 0x30 == 0x00 and d.dst == st.peer_addr]
+        if pre == "queued" and not cons:
+            # what was ahead of it has been answered and the confirmable message under test still is not on the wire: there is
+            # nothing to retransmit or to give up - the request can only hang (the execution ends here)
+            st.never_sent = True
+            st.violations.append(Violation("confirmable-message-never-sent", "transmitted once the requests ahead of it are answered", "not transmitted",
+                                           "messagemanager.py:_continue_backlog", {}, key="never-sent"))
+            return st
         if len(cons) != 1:
             raise core.HarnessFault if False else RuntimeError("setup of %s did not produce exactly one CON: %r" % (self.name, w.trace))
         first = cons[0]
@@ -218,6 +234,8 @@ class ConScenario(Scenario):
 
     def enabled(self, st):
         w = st.world
+        if getattr(st, "never_sent", False):
+            return []
         tn = w.loop.next_timer()
         if tn is None or tn > st.horizon:
             return []
@@ -348,6 +366,8 @@ class ConScenario(Scenario):
 
     def finish(self, st):
         w = st.world
+        if getattr(st, "never_sent", False):
+            return
         tt = st.tt
         cp = self.copies(st)
         times = [d.t for d in cp]
@@ -387,6 +407,8 @@ class ConScenario(Scenario):
             st.violations.append(Violation("unexpected-transmission", "none", [repr(d) for d in others], "messagemanager.py", {}, key="tx"))
 
     def outcome(self, st):
+        if getattr(st, "never_sent", False):
+            return ("never-sent", 0, 0)
         return (st.m_end[0] if st.m_end else None, len(st.m_times), st.injected)
 
 
@@ -409,7 +431,7 @@ def scenarios(tier, K):
         out.append(ConScenario("block2", a, f, m, "hi", K))
     out.append(ConScenario("request", 2, 1.5, 4, "lo", K, "default-after-edit"))
     out.append(ConScenario("request", 2, 1.5, 4, "hi", K, "default-after-edit"))
-    for src, pres in (("request", ("strayack", "strayrst", "collide", "older", "class", "queued", "follower-withdrawn")), ("separate", ("collide", "class")),
+    for src, pres in (("request", ("strayack", "strayrst", "collide", "older", "class", "queued", "follower-withdrawn", "mtype-arg")), ("separate", ("collide", "class")),
                       ("notification", ("collide", "class"))):
         for pre in pres:
             for (a, f, m) in ((2, 1.5, 4), (0.5, 1.0, 1)):
